@@ -62,6 +62,8 @@ def apply_spec(mod, spec):
                     v = mod.LoopType(v)
                 setattr(s, f, v)
             mod.samples[e["i"]] = s
+        elif k == "sample_alias":
+            mod.samples[e["to"]] = mod.samples[e["from"]]      # the SAME Sample object in a second slot
         elif k == "env":
             env = get_env(mod, e["e"])
             for f, v in e["fields"].items():
@@ -274,6 +276,9 @@ def object_cases(ctx):
             add("slot-subset", [{"k": "sample", "i": i, "data": "frame", "fields": {"volume": 10 + j}} for j, i in enumerate(sub)])
     for i in range(128):
         add("single-slot", [{"k": "sample", "i": i, "data": "all256"}])
+    for a, b in ((1, 6), (0, 127), (5, 2)):
+        add("same-sample-object-in-two-slots", [{"k": "sample", "i": a, "data": "odd", "fields": {"volume": 33}},
+                                                {"k": "sample", "i": 4, "data": "frame"}, {"k": "sample_alias", "from": a, "to": b}])
     for dn in DATA:
         for fmt in (1, 2, 4) if len(DATA[dn]) < 1000 else (2,):
             for st in (False, True) if len(DATA[dn]) < 1000 else (False,):
@@ -415,6 +420,10 @@ def _legacy_build():
             pack_into("<HH", r2, 0x84 + 4 * i, 3 * i + 1, (i * 7 + 2) % 65)
             pack_into("<HH", r2, 0xB4 + 4 * i, 5 * i + 2, (i * 11 + 3) % 65)
         r2[0xE4], r2[0xE5] = kv, kp
+        # documented offsets 0xE6..0xEB: volume sustain / loop start / loop end, then the same three for panning --
+        # all six different, each inside its envelope's active points
+        r2[0xE6:0xEC] = bytes([min(2, max(kv - 1, 0)), min(1, max(kv - 1, 0)), min(4, max(kv - 1, 0)),
+                               min(1, max(kp - 1, 0)), min(2, max(kp - 1, 0)), min(3, max(kp - 1, 0))])
         o3 = list(out)
         o3[ri_out] = (b"CHDT", bytes(r2))
         name = f"no-envelope-chunks:vol{kv}-pan{kp}"
@@ -459,6 +468,14 @@ def _legacy_run(variants, rec):
                 got = [[a, b] for a, b in getattr(o1.module, attr).points]
                 if got != ref:
                     vs.append(C.viol("legacy-envelope-conversion", dict(key, envelope=which), {"expected": ref, "observed": got}, case))
+                r_ = _LEGACY_RECORDS.get(name, rec)
+                off = 0xE6 if which == "volume" else 0xE9
+                env = getattr(o1.module, attr)
+                want_idx = [r_[off], r_[off + 1], r_[off + 2]]
+                got_idx = [env.sustain_point, env.loop_start_point, env.loop_end_point]
+                if got_idx != want_idx:
+                    vs.append(C.viol("legacy-envelope-conversion", dict(key, envelope=which, part="sustain/loop indices"),
+                                     {"expected": want_idx, "observed": got_idx}, case))
         try:
             y = C.save(o1)
             o2 = C.load_bytes(y)
